@@ -5,15 +5,21 @@ import (
 	"crypto/ecdsa"
 	"crypto/elliptic"
 	"crypto/rsa"
+	"crypto/sha256"
 	"fmt"
 	"math/big"
 	"testing"
+	"testing/cryptotest"
 
 	ct "github.com/google/certificate-transparency-go"
+	"github.com/google/certificate-transparency-go/trillian/ctfe"
+	"github.com/google/certificate-transparency-go/trillian/ctfe/configpb"
+	"github.com/google/trillian/crypto/keyspb"
 	"pgregory.net/rapid"
 
 	"verif/internal/harness"
 	"verif/internal/keys"
+	"verif/internal/rfc6962"
 )
 
 // PolicyCase: may a SignatureVerifier be constructed for this key with / without the opt-in?
@@ -23,6 +29,13 @@ type PolicyCase struct {
 	Bits  int    // rsa-bits: exact modulus bit length
 	Low   []byte // rsa-bits: low-order bytes of the modulus
 	OptIn bool
+
+	// Frozen != "": before the verifier is asked for, a mirror log configuration carrying a frozen STH
+	// signed by FrozenKey is put through ctfe.ValidateLogConfig in the same process ("valid" or "corrupt"
+	// signature). Nothing but the caller may change the opt-in.
+	Frozen    string
+	FrozenKey string
+	Seed      uint64
 }
 
 var rsaBitChoices = []int{512, 1023, 1024, 1025, 2040, 2046, 2047, 2048, 2049, 2056, 3072, 4096, 8192}
@@ -41,7 +54,50 @@ func genPolicy(t *rapid.T) PolicyCase {
 	case "ecdsa-value", "p256-generic":
 		c.Key = genKeyOf(t, "key", "p256", "p384")
 	}
+	if pick(t, "frozen", 3) == 0 {
+		c.Frozen = pickStr(t, "frozenkind", []string{"valid", "valid", "corrupt"})
+		c.FrozenKey = genKeyOf(t, "frozenkey", "p256", "p256", "rsa2048", "p384", "rsa1024", "rsa2050", "p224")
+		c.Seed = rapid.Uint64().Draw(t, "seed")
+	}
 	return c
+}
+
+// validateFrozen runs ctfe.ValidateLogConfig on a mirror configuration with a frozen STH and judges its
+// own verdict: accepted iff a verifier may be built for the key and the signature is valid.
+func validateFrozen(t *testing.T, v *harness.Verdict, c PolicyCase) {
+	cryptotest.SetGlobalRandom(t, c.Seed)
+	k := getKey(c.FrozenKey)
+	root := sha256.Sum256([]byte(c.FrozenKey))
+	size, ts := uint64(c.Seed%1000), uint64(1700000000000+c.Seed%100000)
+	input, err := rfc6962.STHSignatureInput(0, ts, size, root)
+	if err != nil {
+		panic(err)
+	}
+	val := signStd(k, hashSHA256, input)
+	if c.Frozen == "corrupt" {
+		val = flipBit(val, int(c.Seed>>8%4096))
+	}
+	ds, err := rfc6962.EncodeDS(rfc6962.DigitallySigned{Hash: hashSHA256, Sig: uint8(nativeSig(k)), Signature: val})
+	if err != nil {
+		panic(err)
+	}
+	cfg := &configpb.LogConfig{LogId: 7, Prefix: "c05", IsMirror: true, PublicKey: &keyspb.PublicKey{Der: spkiOf(k)},
+		FrozenSth: &configpb.SignedTreeHead{TreeSize: int64(size), Timestamp: int64(ts), Sha256RootHash: root[:], TreeHeadSignature: ds}}
+	var verr error
+	var pan any
+	func() {
+		defer func() { pan = recover() }()
+		_, verr = ctfe.ValidateLogConfig(cfg)
+	}()
+	want := refVerify(k.Pub, hashSHA256, nativeSig(k), input, val)
+	if ok, class := refPolicy(k.Pub, c.OptIn); !ok {
+		want = refuse("policy", "no verifier may be built for a %s key (opt-in %v)", class, c.OptIn)
+	}
+	v.Class("frozen-sth:"+c.Frozen, "frozen-key:"+k.Kind)
+	judge(v, "ctfe.ValidateLogConfig(frozen STH)", verr, pan, want, &presented{pub: k.Pub, key: k, keyName: k.Name, hash: hashSHA256, sig: nativeSig(k), msg: input, val: val})
+	if ct.AllowVerificationWithNonCompliantKeys != c.OptIn {
+		v.Failf("optin-global-changed", "ctfe.ValidateLogConfig (frozen STH under %s) left AllowVerificationWithNonCompliantKeys = %v; the caller had set %v", k.Name, ct.AllowVerificationWithNonCompliantKeys, c.OptIn)
+	}
 }
 
 func policyKey(c PolicyCase) (pub any, name string) {
@@ -96,6 +152,9 @@ func checkPolicy(t *testing.T, c PolicyCase) (v harness.Verdict) {
 	if c.Shape == "rsa-bits" {
 		v.Class(fmt.Sprintf("rsa-bits:%d", c.Bits))
 	}
+	if c.Frozen != "" {
+		validateFrozen(t, &v, c)
+	}
 	sv := verifierFor(&v, pub, name, c.OptIn)
 	_ = sv
 	if ct.AllowVerificationWithNonCompliantKeys != c.OptIn {
@@ -112,6 +171,6 @@ func checkPolicy(t *testing.T, c PolicyCase) (v harness.Verdict) {
 // Policy is the verifier-construction clause of C05.
 var Policy = harness.Define(harness.Opts{
 	Name:  "policy",
-	Rule:  "ct.NewSignatureVerifier over pool keys of every kind, fabricated RSA moduli of 512..8192 bits around the 2048 boundary, P-256 given as generic CurveParams, and undefined key types (nil, Ed25519, DSA, ECDH, value-type structs, []byte, string) x opt-in flag (global reset per case): succeeds iff (RSA >= 2048 bits or ECDSA P-256) or (RSA / ECDSA and opt-in). Every case is non-trivial",
+	Rule:  "ct.NewSignatureVerifier over pool keys of every kind, fabricated RSA moduli of 512..8192 bits around the 2048 boundary, P-256 given as generic CurveParams, and undefined key types (nil, Ed25519, DSA, ECDH, value-type structs, []byte, string) x opt-in flag (global reset per case), in a third of the cases after ctfe.ValidateLogConfig checked a frozen STH in the same process (its verdict judged, the opt-in flag must be untouched): succeeds iff (RSA >= 2048 bits or ECDSA P-256) or (RSA / ECDSA and opt-in). Every case is non-trivial",
 	Quick: 1000, Thorough: 4000,
 }, genPolicy, checkPolicy)
